@@ -214,7 +214,9 @@ func init() {
 						}
 					}
 					target := "/private"
-					if kind == "authonly" {
+					ql0, _ := in["query"].([]interface{})
+					authonly := kind == "authonly" || (kind == "htpasswd" && len(ql0) > 0)
+					if authonly {
 						q := url.Values{}
 						if ql, ok := in["query"].([]interface{}); ok {
 							for _, e := range ql {
@@ -234,7 +236,7 @@ func init() {
 					r := w.get(j, target)
 					obs["status"] = r.Status
 					obs["session"] = w.sessionCookieEffect(r)
-					if kind == "authonly" {
+					if authonly {
 						obs["served"] = r.Status == 202
 					} else {
 						obs["served"] = r.UpHits > 0
